@@ -16,8 +16,8 @@
  *
  * The encoder struct is private to source/cbor.c.  An encoder is created with aws_cbor_encoder_new and its buffer is
  * then replaced by one of exactly r_cap bytes with r_len of them filled, through a shadow declaration of the struct
- * (allocator, encoded_buf); the shadow is checked against what aws_cbor_encoder_new and get_encoded_data report
- * before it is used (exit 3 if the layout does not match).  Decoder states are reached through the public API only:
+ * (allocator, encoded_buf); the shadow is checked against what aws_cbor_encoder_new must have produced (the allocator
+ * twice, length 0, capacity 256) before it is used (exit 3 if the layout does not match).  Decoder states are reached through the public API only:
  * a cached element by aws_cbor_decoder_peek_type on an item built from (r_ctype, r_cu64) that is put in front of the
  * input, a sticky error by peeking at a malformed byte (the only sticky error the API can produce is
  * AWS_ERROR_INVALID_CBOR; any other recorded value is replaced by it, the contracts treat all non-zero values alike).
@@ -172,13 +172,22 @@ struct enc {
     size_t old_len, old_cap;
     uint8_t *old_buf, *snap;
 };
+static int s_room_lt_reserve = -1; /* set when the string argument was shortened: the recorded relation room < reservation */
 static struct enc mkenc(size_t reserve) {
     struct aws_allocator *alloc = aws_default_allocator();
     struct enc x;
     memset(&x, 0, sizeof x);
-    size_t len = get("r_len", get("encoder.encoded_buf.len", 3)), cap = has("r_cap") ? get("r_cap", 0) : get("encoder.encoded_buf.capacity", 256);
+    /* r_len / r_cap are tied to the buffer only in the units whose harness sets r_who = R_ENC (1); elsewhere the object's
+     * own fields are used (units whose function does not change them) */
+    int tied = has("r_len") && has("r_cap") && (!has("r_who") || get("r_who", 0) == 1);
+    size_t len = tied ? get("r_len", 0) : get("encoder.encoded_buf.len", 3), cap = tied ? get("r_cap", 0) : get("encoder.encoded_buf.capacity", len > 256 ? len : 256);
     if (len > cap) CANNOT("len %zu > capacity %zu (not a valid buffer)", len, cap);
     int shortened = 0;
+    if (s_room_lt_reserve >= 0 && ((cap - len < reserve) != s_room_lt_reserve)) {
+        size_t cap2 = s_room_lt_reserve ? len + reserve - 1 : len + reserve + 16;
+        printf("note: capacity %zu->%zu so that the room left stays %s the reservation of %zu\n", cap, cap2, s_room_lt_reserve ? "below" : "at or above", reserve);
+        cap = cap2;
+    }
     if (cap > REAL_MAX) {
         /* keep the room left exactly when it is what decides (up to the reservation and a little more), cut the filled part */
         size_t room = cap - len, room2 = room > reserve + 32 ? reserve + 32 : room, len2 = len > 32 ? 32 : len;
@@ -187,9 +196,8 @@ static struct enc mkenc(size_t reserve) {
     }
     x.e = aws_cbor_encoder_new(alloc);
     x.sh = (struct enc_shadow *)x.e;
-    struct aws_byte_cursor c = aws_cbor_encoder_get_encoded_data(x.e);
-    if (x.sh->allocator != alloc || x.sh->encoded_buf.allocator != alloc || x.sh->encoded_buf.len != 0 || c.len != 0 || x.sh->encoded_buf.capacity != 256 ||
-        x.sh->encoded_buf.buffer == NULL || (c.ptr != NULL && c.ptr != x.sh->encoded_buf.buffer))
+    /* layout check: both allocator fields, the zero length and the 256-byte capacity must sit where the shadow expects them */
+    if (x.sh->allocator != alloc || x.sh->encoded_buf.allocator != alloc || x.sh->encoded_buf.len != 0 || x.sh->encoded_buf.capacity != 256 || x.sh->encoded_buf.buffer == NULL)
         CANNOT("struct aws_cbor_encoder does not have the expected layout (allocator, encoded_buf) or a new encoder is not empty with 256 bytes");
     aws_mem_release(alloc, x.sh->encoded_buf.buffer);
     x.sh->encoded_buf.buffer = cap ? aws_mem_acquire(alloc, cap) : NULL;
@@ -212,6 +220,9 @@ static void check_appended(struct enc *x, const char *op, const uint8_t *want, s
     }
     if (b->len > b->capacity || b->capacity < x->old_cap) FAIL("%s: len %zu capacity %zu afterwards (capacity was %zu)", op, b->len, b->capacity, x->old_cap);
     if (x->old_cap - x->old_len >= reserve && (b->capacity != x->old_cap || b->buffer != x->old_buf)) FAIL("%s re-allocated although %zu bytes were left and it reserves %zu", op, x->old_cap - x->old_len, reserve);
+    /* the other half of the contract's storage clause: with less room than the reservation the storage is a new block */
+    if (x->old_cap - x->old_len < reserve && b->buffer == x->old_buf)
+        FAIL("%s kept the old storage although only %zu byte(s) were left and it has to reserve %zu (capacity %zu -> %zu)", op, x->old_cap - x->old_len, reserve, x->old_cap, b->capacity);
     if (s_fail) return;
     for (size_t i = 0; i < x->old_len; ++i) if (c.ptr[i] != x->snap[i]) { FAIL("%s: byte %zu written earlier changed (%u -> %u)", op, i, x->snap[i], c.ptr[i]); return; }
     for (size_t i = 0; i < n; ++i)
@@ -240,8 +251,18 @@ static int float_regime(double v) {
 }
 static int same_double(double a, double b) { return (isnan(a) && isnan(b)) || a == b; }
 
-/* ------------------------------------------------------------------ decoder input from the replay variables */
-struct dec_in { uint8_t *bytes; size_t prefix, len; };
+/* ------------------------------------------------------------------ decoder */
+/* "the cache is empty": the next peek has to decode the element at the input position `rest` (rest_len bytes left) -
+ * a stale cached element would be reported again without the position moving */
+static void check_cache_empty(struct aws_cbor_decoder *d, const uint8_t *rest, size_t rest_len, const char *op) {
+    struct item nx = spec_read(rest, rest_len);
+    enum aws_cbor_type t = AWS_CBOR_TYPE_UNKNOWN;
+    int r = aws_cbor_decoder_peek_type(d, &t);
+    size_t rem = aws_cbor_decoder_get_remaining_length(d);
+    if (nx.ok ? (r != AWS_OP_SUCCESS || t != nx.type || rem != rest_len - nx.elemlen) : (r != AWS_OP_ERR || rem != rest_len))
+        FAIL("%s did not empty the cache: the next peek returns %d / %s with %zu byte(s) left, the input position holds %s (%zu byte(s) left before)", op, r,
+             aws_cbor_type_cstr(t), rem, nx.ok ? aws_cbor_type_cstr(nx.type) : "no complete element", rest_len);
+}
 
 static int run_u64_round_trip(const char *op, uint64_t v) {
     /* rt_uint / rt_negint / rt_tag / rt_array_start / rt_map_start: real encoder, real decoder, back to back */
@@ -261,6 +282,17 @@ static int run_u64_round_trip(const char *op, uint64_t v) {
     if (r != AWS_OP_SUCCESS || out != v) FAIL("%s: wrote %llu, decoding gives %s / %llu", op, (unsigned long long)v, r ? "an error" : "success", (unsigned long long)out);
     expect_end(d, op);
     return 0;
+}
+
+/* run another op of this driver (the rt_* units are the write_* replays on an empty encoder) */
+int main(int argc, char **argv);
+static int sub(int argc, char **argv) {
+    int sc = s_argc;
+    char **sv = s_argv;
+    int rc = main(argc, argv);
+    s_argc = sc;
+    s_argv = sv;
+    return rc;
 }
 
 int main(int argc, char **argv) {
@@ -369,6 +401,13 @@ int main(int argc, char **argv) {
     /* ---------------------------------------------------------------- encoder: strings */
     } else if (!strcmp(op, "write_bytes") || !strcmp(op, "write_text")) {
         size_t fl = get("r_from_len", 5);
+        if (fl > REAL_MAX && fl <= 0xFFFFFFFFull) {
+            /* same head width (four-byte length), same relation between the room left and the reservation */
+            size_t fl2 = 65536 + (fl & 0xFFF), len0 = get("r_len", 3), cap0 = get("r_cap", 256);
+            printf("note: a string of %zu bytes cannot be backed by memory; replaying with %zu (same head width)\n", fl, fl2);
+            if (len0 <= cap0) s_room_lt_reserve = cap0 - len0 < 9 + fl;
+            fl = fl2;
+        }
         if (fl > REAL_MAX) CANNOT("string of %zu bytes", fl);
         struct enc x = mkenc(9 + fl);
         uint8_t *payload = malloc(fl ? fl : 1);
@@ -386,14 +425,49 @@ int main(int argc, char **argv) {
         if (r || out.len != fl || (fl && memcmp(out.ptr, payload, fl))) FAIL("%s: the appended string of %zu bytes decodes to %s / %zu bytes", op, fl, r ? "an error" : "success", out.len);
         expect_end(d, op);
 
+    /* ---------------------------------------------------------------- construction / observation */
+    } else if (!strcmp(op, "get_encoded_data") || !strcmp(op, "encoder_reset")) {
+        struct enc x = mkenc(0);
+        if (!strcmp(op, "encoder_reset")) aws_cbor_encoder_reset(x.e);
+        struct aws_byte_cursor c = aws_cbor_encoder_get_encoded_data(x.e);
+        size_t want_len = !strcmp(op, "encoder_reset") ? 0 : x.old_len;
+        if (c.len != want_len || (c.ptr != x.old_buf && !(c.ptr == NULL && want_len == 0))) FAIL("%s: encoded data is %zu byte(s) at %s, expected %zu at the start of the buffer", op, c.len, c.ptr == x.old_buf ? "the start of the buffer" : "another address", want_len);
+        if (x.sh->encoded_buf.capacity != x.old_cap || x.sh->encoded_buf.buffer != x.old_buf) FAIL("%s changed the storage", op);
+    } else if (!strcmp(op, "encoder_new")) {
+        struct aws_cbor_encoder *e = aws_cbor_encoder_new(alloc);
+        struct enc_shadow *sh = (struct enc_shadow *)e;
+        struct aws_byte_cursor c = aws_cbor_encoder_get_encoded_data(e);
+        if (c.len != 0) FAIL("a new encoder holds %zu encoded byte(s)", c.len);
+        if (sh->allocator != alloc || sh->encoded_buf.allocator != alloc || sh->encoded_buf.len != 0 || sh->encoded_buf.capacity != 256 || !sh->encoded_buf.buffer)
+            FAIL("a new encoder: allocator %s, buffer allocator %s, len %zu, capacity %zu (expected the given allocator, 0, 256)", sh->allocator == alloc ? "ok" : "wrong", sh->encoded_buf.allocator == alloc ? "ok" : "wrong", sh->encoded_buf.len, sh->encoded_buf.capacity);
+        else memset(sh->encoded_buf.buffer, 0x11, 256); /* all of it writable (ASan) */
+    } else if (!strcmp(op, "decoder_new")) {
+        static const uint8_t in[3] = {0x01, 0x02, 0x03};
+        for (size_t l = 0; l <= 3 && !s_fail; ++l) { /* the by-value cursor argument is not recorded: lengths 0..3 */
+            uint8_t *h = malloc(l ? l : 1); memcpy(h, in, l);
+            struct aws_cbor_decoder *d = aws_cbor_decoder_new(alloc, aws_byte_cursor_from_array(h, l));
+            uint64_t v = 99;
+            if (aws_cbor_decoder_get_remaining_length(d) != l) FAIL("a new decoder over %zu byte(s) reports %zu left", l, aws_cbor_decoder_get_remaining_length(d));
+            int r = aws_cbor_decoder_pop_next_unsigned_int_val(d, &v);
+            if (l ? (r != AWS_OP_SUCCESS || v != 1) : (r != AWS_OP_ERR)) FAIL("a new decoder over %zu byte(s) does not start empty and error-free at the first byte", l);
+        }
+
     /* ---------------------------------------------------------------- decoder */
     } else if (!strcmp(op, "decode_next_element") || !strncmp(op, "pop_", 4) || !strcmp(op, "peek_type") || !strcmp(op, "consume_next_single_element") || !strcmp(op, "get_remaining_length")) {
+        if (has("r_who") && get("r_who", 0) != 2) CANNOT("the decoder's pre-state was not recorded (r_who != R_DEC)");
         size_t len = get("r_src_len", get("decoder.src.len", 1));
         int err = (int)get("r_err", 0), ctype = (int)get("r_ctype", 0);
         uint64_t cu = get("r_cu64", 0);
         uint8_t head[9];
         for (int i = 0; i < 9; ++i) { char k[8]; snprintf(k, sizeof k, "r_b%d", i); head[i] = (uint8_t)get(k, i == 0 ? 0x01 : 0); }
         if (!strcmp(op, "decode_next_element")) { err = 0; ctype = 0; }
+        if (err == 0 && (ctype < 0 || ctype > AWS_CBOR_TYPE_INDEF_MAP_START)) {
+            /* the verifier's enum field is any int; the API can only cache real types.  Such a value is "an element of
+             * another type than the one asked for" to every contract: replay it as one */
+            int sub = !strcmp(op, "pop_unsigned_int_val") ? AWS_CBOR_TYPE_NULL : AWS_CBOR_TYPE_UINT;
+            printf("note: recorded cached type %d is not a value of enum aws_cbor_type; replaying with a cached %s\n", ctype, aws_cbor_type_cstr((enum aws_cbor_type)sub));
+            ctype = sub;
+        }
         /* the element as the reader-side specification sees it (claimed length) */
         struct item it = spec_read(head, len);
         if (len > REAL_MAX) {
@@ -494,11 +568,13 @@ int main(int argc, char **argv) {
                 if (r != AWS_OP_SUCCESS || (int)ot != ctype) FAIL("peek_type with a cached %s returned %d / %s", aws_cbor_type_cstr((enum aws_cbor_type)ctype), r, aws_cbor_type_cstr(ot));
             } else if (!is_pop) {
                 if (r != AWS_OP_SUCCESS) FAIL("consume_next_single_element with a cached element failed (%s)", aws_error_name(e));
+                else check_cache_empty(d, src, len, op);
             } else if ((int)expected == ctype) {
                 if (r != AWS_OP_SUCCESS) FAIL("%s with a cached %s failed (%s)", op, aws_cbor_type_cstr(expected), aws_error_name(e));
                 else if (expected == AWS_CBOR_TYPE_BOOL ? ob != (bool)cu : expected == AWS_CBOR_TYPE_FLOAT ? f64_bits(od) != cu
                          : (expected == AWS_CBOR_TYPE_BYTES || expected == AWS_CBOR_TYPE_TEXT) ? (oc.len != cu || oc.ptr != buf + pn) : o64 != cu)
                     FAIL("%s: value handed out differs from the cached %s (cached %llu)", op, aws_cbor_type_cstr(expected), (unsigned long long)cu);
+                if (!s_fail) check_cache_empty(d, src, len, op);
             } else {
                 if (r != AWS_OP_ERR || e != AWS_ERROR_CBOR_UNEXPECTED_TYPE) FAIL("%s with a cached %s returned %d / %s, expected AWS_ERROR_CBOR_UNEXPECTED_TYPE", op, aws_cbor_type_cstr((enum aws_cbor_type)ctype), r, aws_error_name(e));
                 if (aws_cbor_decoder_peek_type(d, &again) || (int)again != ctype || aws_cbor_decoder_get_remaining_length(d) != len) FAIL("%s: the cached %s was lost on a type mismatch", op, aws_cbor_type_cstr((enum aws_cbor_type)ctype));
@@ -513,6 +589,7 @@ int main(int argc, char **argv) {
                 if (r != AWS_OP_SUCCESS || ot != it.type) FAIL("%s returned %d / %s, the element is a %s", op, r, aws_cbor_type_cstr(ot), aws_cbor_type_cstr(it.type));
             } else if (!is_pop) {
                 if (r != AWS_OP_SUCCESS) FAIL("consume_next_single_element failed on a complete element (%s)", aws_error_name(e));
+                else if (!s_fail) check_cache_empty(d, src + it.elemlen, len - it.elemlen, op);
             } else if (expected == it.type) {
                 if (r != AWS_OP_SUCCESS) FAIL("%s failed on a complete %s (%s)", op, aws_cbor_type_cstr(it.type), aws_error_name(e));
                 else switch (expected) {
@@ -526,6 +603,7 @@ int main(int argc, char **argv) {
                         break;
                     default: if (o64 != it.argv) FAIL("%s gives %llu, the head carries %llu", op, (unsigned long long)o64, (unsigned long long)it.argv); break;
                 }
+                if (r == AWS_OP_SUCCESS && !s_fail) check_cache_empty(d, src + it.elemlen, len - it.elemlen, op);
             } else {
                 if (r != AWS_OP_ERR || e != AWS_ERROR_CBOR_UNEXPECTED_TYPE) FAIL("%s on a %s returned %d / %s, expected AWS_ERROR_CBOR_UNEXPECTED_TYPE", op, aws_cbor_type_cstr(it.type), r, aws_error_name(e));
                 if (aws_cbor_decoder_peek_type(d, &again) || again != it.type || aws_cbor_decoder_get_remaining_length(d) != rem) FAIL("%s: the decoded %s was not kept for the matching pop", op, aws_cbor_type_cstr(it.type));
@@ -535,8 +613,12 @@ int main(int argc, char **argv) {
 
     /* ---------------------------------------------------------------- round trips through the real code on both sides */
     } else if (!strcmp(op, "rt_uint") || !strcmp(op, "rt_negint") || !strcmp(op, "rt_tag") || !strcmp(op, "rt_array_start") || !strcmp(op, "rt_map_start")) {
-        if (!has("r_v")) CANNOT("operand r_v missing");
-        run_u64_round_trip(op, get("r_v", 0));
+        if (has("r_v")) run_u64_round_trip(op, get("r_v", 0));
+        else { /* no operand recorded (the trace pass of the check failed): the head-width boundaries */
+            static const uint64_t samples[] = {0, 1, 23, 24, 25, 255, 256, 65535, 65536, 0xFFFFFFFFull, 0x100000000ull, 0x7FFFFFFFFFFFFFFFull, 0x8000000000000000ull, UINT64_MAX};
+            printf("note: no operand recorded; running %zu boundary values\n", sizeof samples / sizeof *samples);
+            for (size_t k = 0; k < sizeof samples / sizeof *samples && !s_fail; ++k) run_u64_round_trip(op, samples[k]);
+        }
     } else if (!strcmp(op, "rt_sequence")) {
         uint64_t v1 = get("r_v", 1), v2 = get("r_v2", 2), o1 = 0, o2 = 0;
         struct aws_cbor_encoder *e = aws_cbor_encoder_new(alloc);
@@ -547,19 +629,47 @@ int main(int argc, char **argv) {
         expect_end(d, op);
     } else if (!strcmp(op, "rt_simple")) {
         static const char *const names[8] = {"write_bool", "write_null", "write_undefined", "write_break", "write_indef_bytes_start", "write_indef_text_start", "write_indef_array_start", "write_indef_map_start"};
+        if (!has("r_v")) { /* no operand recorded: all of them */
+            for (int w = 0; w < 9; ++w) {
+                char *av[5] = {argv[0], (char *)names[w < 8 ? w : 0], w == 8 ? "arg.value=0" : "arg.value=1", "r_len=0", "r_cap=16"};
+                int rc = sub(5, av);
+                if (rc) return rc;
+            }
+            return 0;
+        }
         uint64_t which = get("r_v", 0);
-        char *av[4] = {argv[0], (char *)names[which < 8 ? which : 7], get("r_v2", 1) ? "arg.value=1" : "arg.value=0", "r_len=0"};
+        char *av[5] = {argv[0], (char *)names[which < 8 ? which : 7], get("r_v2", 1) ? "arg.value=1" : "arg.value=0", "r_len=0", "r_cap=16"};
         printf("rt_simple -> %s\n", av[1]);
-        return main(4, av);
+        return sub(5, av);
     } else if (!strcmp(op, "rt_bytes") || !strcmp(op, "rt_text")) {
-        char l[40]; snprintf(l, sizeof l, "r_from_len=%llu", (unsigned long long)get("r_from_len", 24));
-        char *av[5] = {argv[0], !strcmp(op, "rt_bytes") ? "write_bytes" : "write_text", l, "r_len=0", "r_cap=80"};
-        return main(5, av);
+        static const unsigned lens[] = {0, 1, 23, 24, 25, 40};
+        for (size_t k = 0; k < (has("r_from_len") ? 1 : sizeof lens / sizeof *lens); ++k) { /* no length recorded: the head-width boundaries */
+            char l[40]; snprintf(l, sizeof l, "r_from_len=%llu", (unsigned long long)get("r_from_len", lens[k]));
+            char *av[5] = {argv[0], !strcmp(op, "rt_bytes") ? "write_bytes" : "write_text", l, "r_len=0", "r_cap=80"};
+            int rc = sub(5, av);
+            if (rc) return rc;
+        }
+        return 0;
     } else if (!strncmp(op, "rt_float", 8) || !strcmp(op, "rt_single_float")) {
-        if (!has("r_bits")) CANNOT("bit pattern of the operand (r_bits) missing");
-        char l[40]; snprintf(l, sizeof l, "r_bits=%llu", (unsigned long long)get("r_bits", 0));
-        char *av[5] = {argv[0], !strcmp(op, "rt_single_float") ? "write_single_float" : "write_float", l, "r_len=0", "r_cap=16"};
-        return main(5, av);
+        /* no operand recorded (the trace pass of the check failed): values at the edges of the three regimes of
+         * write_float - one ulp beside a single / beside an integer, 2^63, -2^63, the ends of the single range, -0, NaN, inf */
+        static const uint64_t dsamples[] = {
+            0x3FF0000000000001ull /* 1 + ulp */, 0x3FEFFFFFFFFFFFFFull /* 1 - ulp */, 0x3FB99999A0000001ull /* 0.1f + ulp */, 0x3FF8000000000000ull /* 1.5 */,
+            0x3FB999999999999Aull /* 0.1 */, 0x4320000000000001ull /* 2^51 + 0.5 */, 0x432FFFFFFFFFFFFFull /* 2^52 - 0.5 */, 0x4330000000000000ull /* 2^52 */,
+            0x43E0000000000000ull /* 2^63 */, 0xC3E0000000000000ull /* -2^63 */, 0xC3E0000000000001ull, 0x43DFFFFFFFFFFFFFull, 0x47EFFFFFE0000000ull /* FLT_MAX */,
+            0x47EFFFFFE0000001ull, 0x36A0000000000000ull /* smallest subnormal single */, 0x36A0000000000001ull, 0x0000000000000001ull, 0x7FEFFFFFFFFFFFFFull,
+            0x8000000000000000ull /* -0 */, 0x0ull, 0x7FF0000000000000ull, 0xFFF0000000000000ull, 0x7FF8000000000000ull, 0xC008000000000000ull /* -3 */, 0x4059000000000000ull /* 100 */};
+        static const uint64_t fsamples[] = {0x3F800000, 0x3DCCCCCD, 0x7F800000, 0xFF800000, 0x7FC00000, 0x00000001, 0x7F7FFFFF, 0x80000000, 0x5F000000};
+        int single = !strcmp(op, "rt_single_float");
+        size_t cnt = has("r_bits") ? 1 : single ? sizeof fsamples / sizeof *fsamples : sizeof dsamples / sizeof *dsamples;
+        if (!has("r_bits")) printf("note: no operand recorded; running %zu values at the edges of the float regimes\n", cnt);
+        for (size_t k = 0; k < cnt; ++k) {
+            char l[40]; snprintf(l, sizeof l, "r_bits=%llu", (unsigned long long)get("r_bits", single ? fsamples[k] : dsamples[k]));
+            char *av[5] = {argv[0], single ? "write_single_float" : "write_float", l, "r_len=0", "r_cap=16"};
+            int rc = sub(5, av);
+            if (rc) return rc;
+        }
+        return 0;
 
     /* ---------------------------------------------------------------- skipping a whole data item (unit skip_whole_item_native is a
      * native run already and records no variables): a fixed set of small nestings, empty containers included */
